@@ -465,6 +465,15 @@ def gen_enums(ctx):
         mk_enum(ctx, n, full + [0], "true", inv, expect="invalid", rule="more than 2^N variants")
         mk_enum(ctx, n, full[:-1] + [2 ** n], "false", inv, expect="invalid", rule="discriminant = 2^N")
         mk_enum(ctx, n, full[:-1] + [2 ** n], "true", inv, expect="invalid", rule="discriminant = 2^N (count = 2^N)")
+    # the same claims at every size class, the large ones included (2^N no longer fits 32 / 64 bits: seeded S85)
+    for n in [s for s in sizes if s >= 4]:
+        sep = ":" if n % 2 else "="
+        mk_enum(ctx, n, [0, 1, 2 ** n - 1], "true", inv, expect="invalid", rule="exhaustive=true with three of 2^%d values" % n, sep=sep)
+        mk_enum(ctx, n, [0, 2 ** n - 1], "false", ["enums"], sep=sep)
+        mk_enum(ctx, n, [2 ** n - 1], None, ["enums"])
+        if n < 64:
+            mk_enum(ctx, n, [0, 2 ** n], "false", inv, expect="invalid", rule="discriminant = 2^%d" % n)
+            mk_enum(ctx, n, [1, 2 ** n + 1], None, inv, expect="invalid", rule="discriminant = 2^%d + 1" % n)
     mk_enum(ctx, 3, [0, 1, 7], "false", ["enums"])  # max discriminant 2^N - 1 is fine
     mk_enum(ctx, 3, [0, None, 2], "false", inv, expect="invalid", rule="missing discriminant")
     mk_enum(ctx, 3, [0, 1, 2], "false", inv, expect="invalid", rule="non-literal discriminant", discr_texts=["0", "1 + 1", "4"])
@@ -1060,6 +1069,89 @@ def gen_kf1(ctx):
     mk_bf(ctx, 32, [mk_field("kf1_y", "native", 64, [(0, 31), (0, 31)], access="r")], ["kf1"], rule="KF1 u64 over u32")
 
 
+def gen_random(ctx):
+    """structs whose fields are drawn at random from the whole space of valid shapes: kind (bool / native / signed /
+    arbitrary / enum / Option<enum> / nested), position, contiguous or a list of 2..4 pieces in random order, scalar or
+    array (count 2..5, stride = span .. span + 5, or an interleaving stride for single-bit lists), access.  Fields may
+    overlap each other.  The enumerated classes above take each branch of the generator at its boundary; this class adds
+    combinations nobody thought of (each seed gives other ones)."""
+    rng = ctx.rng
+    enums = {w: cached_enum(ctx, w, w <= 2) for w in (1, 2, 3, 8, 9, 16)}
+    inner = mk_bf(ctx, 8, [mk_field("lo", "arb", 3, [(0, 2)]), mk_field("hi", "signed", 8, [(0, 7)], access="r")],
+                  ["custom-types", "nested-inner", "random"], prefix="N")
+    bases = all_bases(ctx.tier)
+    bases = [b for b in bases if b >= 6]
+    ndecl = 60 if ctx.tier != "thorough" else 500
+    for _ in range(ndecl):
+        N = rng.choice(bases + [128, 64, 32, 24, 100])
+        fields = []
+        for fi in range(rng.randrange(2, 7)):
+            r = rng.random()
+            if r < 0.12:
+                kind, w, custom = "bool", 1, None
+            elif r < 0.30:
+                w = rng.choice([x for x in (8, 16, 32, 64, 128) if x <= N] or [1])
+                kind, custom = ("native" if rng.random() < 0.6 else "signed"), None
+                if w == 1:
+                    kind = "arb"
+            elif r < 0.62:
+                w = rng.randrange(1, min(N, 70) + 1)
+                kind, custom = int_kind(w), None
+            elif r < 0.82:
+                w = rng.choice([x for x in enums if x <= N])
+                e = enums[w]
+                kind, custom = ("enum" if e["exh"] == "true" else "optenum"), e["name"]
+            else:
+                if N < 8:
+                    continue
+                kind, w, custom = "nested", 8, inner["name"]
+            # pieces
+            nparts = 1
+            if kind != "bool" and w >= 2 and rng.random() < 0.4:
+                nparts = rng.randrange(2, min(w, 4) + 1)
+            lens = split_ranges(rng, w, nparts, None)
+            # array?
+            count = None
+            stride = None
+            span_room = N
+            if rng.random() < 0.35 and 2 * w <= N:
+                count = rng.randrange(2, 6)
+            if count is None:
+                rs = place_disjoint(rng, N, lens, rng.choice(["asc", "desc", "shuffle"]))
+            else:
+                if nparts > 1 and all(l == 1 for l in lens) and rng.random() < 0.5 and w * count <= N:
+                    # interleaved single bits: element i at bits i, i + count, i + 2*count, …
+                    rs = [(k * count, k * count) for k in range(w)]
+                    rng.shuffle(rs)
+                    stride = 1
+                else:
+                    extra = rng.randrange(0, 6)
+                    room = N // count - extra
+                    if room < w:
+                        extra = 0
+                        room = N // count
+                    if room < w:
+                        count = None
+                        rs = place_disjoint(rng, N, lens, "shuffle")
+                    else:
+                        span = rng.randrange(w, room + 1)
+                        rs = place_disjoint(rng, span, lens, rng.choice(["asc", "desc", "shuffle"]))
+                        stride = span + extra
+                        hi = max(b for _, b in rs) + (count - 1) * stride
+                        off = rng.randrange(0, N - hi)
+                        rs = [(a + off, b + off) for a, b in rs]
+                        if nparts == 1 and stride == w and rng.random() < 0.5:
+                            stride = None       # default stride
+            access = rng.choice(["rw", "rw", "rw", "r", "w"])
+            fields.append(mk_field("f%d" % fi, kind, w, rs, access=access, count=count, stride=stride, custom=custom,
+                                   order=rng.choice(["ras", "ras", "ars", "rsa", "sra"])))
+        if fields:
+            dflt = None
+            if rng.random() < 0.4:
+                dflt = {"syntax": rng.choice(["=", ":"]), "form": "lit", "value": rng.randrange(2 ** N)}
+            mk_bf(ctx, N, fields, ["random", "profile"] + (["builder"] if dflt else []), default=dflt)
+
+
 def generate(seed, tier):
     ctx = Ctx(seed, tier)
     gen_kf1(ctx)
@@ -1072,6 +1164,7 @@ def generate(seed, tier):
     gen_enums(ctx)
     gen_multi(ctx)
     gen_mixed(ctx)
+    gen_random(ctx)
     gen_args(ctx)
     gen_builder(ctx)
     gen_access(ctx)
